@@ -141,6 +141,10 @@ def check(ctx):
     from . import c11 as _c11
     ctx.shared("C11", _c11.persistence)
     ctx.shared("C11", _c11.must_follow)
+    # a nonce is used once: the nonce kept by the shared endpoint is only ever replaced by a fresher one (C12's nonce rules — a stale copy
+    # of the endpoint written back restores a nonce another task already spent)
+    from . import c12 as _c12
+    ctx.shared("C12", _c12.check_nonce)
     W1 = ctx.rule("W1", "wire shape of the JWS envelope and protected header (RFC 8555 6.2: alg, nonce, url, exactly one of jwk/kid) and of the account/key-change payloads, as written by the derived Serialize impls")
     from .wire_shape import check_shapes
     from .wire_shape import check_read_shapes
